@@ -2,7 +2,7 @@
 SPECIFICATION Spec
 CONSTANTS
   N = 3
-  Vals = {"v1", "v2"}
+  NVals = 2
   Ops = {"New", "ParseAbsent", "ParsePresent", "DeepCopy", "MkCopy", "UpdateFrom", "MutateNested", "Drop"}
   MaxOps = 0
   ShareAbsent = TRUE
@@ -13,3 +13,4 @@ INVARIANT NoSharing
 INVARIANT DefaultStable
 PROPERTY Isolated
 PROPERTY DefaultUntouched
+PROPERTY ObsSound
